@@ -200,6 +200,24 @@ func Build(kind string) *Built {
 		r, c := HTTP(ociunify.New(ocimem.New(), ocimem.New(), &ociunify.Options{ReadPolicy: ociunify.ReadConcurrent}), HTTPOpts{})
 		b.Reg = r
 		add(c)
+	case "rot":
+		b.Reg = NewRotating(ocimem.New(), false)
+	case "rot2":
+		b.Reg = NewRotating(ocimem.New(), true)
+	case "http(rot)":
+		r, c := HTTP(NewRotating(ocimem.New(), false), HTTPOpts{})
+		b.Reg = r
+		add(c)
+	case "http(rot2)":
+		r, c := HTTP(NewRotating(ocimem.New(), true), HTTPOpts{})
+		b.Reg = r
+		add(c)
+	case "http(http(rot2))":
+		r1, c1 := HTTP(NewRotating(ocimem.New(), true), HTTPOpts{})
+		r2, c2 := HTTP(r1, HTTPOpts{})
+		b.Reg = r2
+		add(c1)
+		add(c2)
 	default:
 		panic("unknown stack kind " + kind)
 	}
